@@ -69,7 +69,7 @@ def route_py(segs):
 class Device(object):
     """A freshly configured simulator: tags per `cfg` (the spec's configuration record)."""
 
-    def __init__(self, cfg, attribute_class=Attribute, pers=None, defer=False):
+    def __init__(self, cfg, attribute_class=Attribute, pers=None, defer=False, via_main=False):
         """defer=True: the CIP objects and tags are NOT set up yet -- the first request does it (logix.process(..., tags=self.tags)),
         as in a freshly started simulator"""
         self.cfg = cfg
@@ -96,6 +96,30 @@ class Device(object):
             ent.error = 0
             dict.__setitem__(tags, name, ent)
             self.attrs.append(att)
+        if via_main:
+            # the tag definitions go through the simulator's own command line ('NAME[@c/i/a]=TYPE[len]') and main(): the
+            # Attributes are the ones main() builds (the network server loop is replaced by a stub that captures them)
+            texts = []
+            for tg in cfg["tags"]:
+                name = bytes(bytearray(tg["name"])).decode("iso-8859-1")
+                cia = tg["cia"]
+                at = "" if (cia[0], cia[1]) == (2, 1) else "@%d/%d/%d" % tuple(cia)
+                texts.append("%s%s=%s%s" % (name, at, tg["type"], "" if tg["scalar"] else "[%d]" % tg["len"]))
+            from cpppo.server import network
+            from cpppo.server.enip import main as enip_main
+            captured = {}
+
+            def stub(address=None, target=None, kwargs=None, **kwds):
+                captured.update(kwargs)
+                kwargs["server"]["control"]["done"] = True
+            saved = network.server_main
+            network.server_main = stub
+            try:
+                enip_main.main(argv=["--no-config", "--address", "localhost:0"] + texts, attribute_class=attribute_class)
+            finally:
+                network.server_main = saved
+            tags = captured["tags"]
+            self.attrs = [dict.__getitem__(tags, bytes(bytearray(tg["name"])).decode("iso-8859-1")).attribute for tg in cfg["tags"]]
         self.tags = tags
         kw = {}
         if pers is not None and pers["k"] != "any":
@@ -123,8 +147,12 @@ class Device(object):
         att = device.lookup(*res) if res else None
         return att if att is not None else self.attrs[i]
 
-    def set_mem(self, mem):
+    def set_mem(self, mem, keep_equal=False):
+        """keep_equal: a tag that already holds the wanted values is left alone (its storage stays the object the simulator built)"""
+        cur = self.get_mem() if keep_equal else None
         for i, (tg, vals) in enumerate(zip(self.cfg["tags"], mem)):
+            if cur is not None and cur[i] == vals:
+                continue
             att = self.attr_of(i)
             pv = [dec_elem(tg["type"], b) for b in vals]
             att.default = pv[0] if att.scalar else pv
